@@ -1,5 +1,5 @@
 #!/usr/bin/env python3
-"""tools/eval_seed.py <ID> [--all] [--tier quick]
+"""tools/eval_seed.py <ID> [--all] [--tier quick] [--from <worktree>] [--name <dir under seeded/>]
 
 Take the seeded change a sub-agent left in the scratch worktree /tmp/seed/<ID> (uncommitted diff +
 demo_<ID>.py), confirm it independently in a fresh scratch copy of /repo (outside /repo and /verif):
@@ -26,7 +26,8 @@ def main():
         tier = sys.argv[sys.argv.index("--tier") + 1]
     which = ALL if "--all" in sys.argv else [pid]
     src = sys.argv[sys.argv.index("--from") + 1] if "--from" in sys.argv else "/tmp/seed/%s" % pid
-    dest = os.path.join(VERIF, "seeded", pid)
+    name = sys.argv[sys.argv.index("--name") + 1] if "--name" in sys.argv else pid
+    dest = os.path.join(VERIF, "seeded", name)
     if os.path.isdir(src):
         diff = sh(["git", "-C", src, "diff"]).stdout
         demo_src = os.path.join(src, "demo_%s.py" % pid)
@@ -97,7 +98,7 @@ def main():
         meta["checks"] = merged
         meta["detected_by"] = sorted(c for c, v in merged.items() if v["rc"] == 1)
     json.dump(meta, open(mp, "w"), indent=1)
-    print(pid, "confirmed=%s" % meta["confirmed"], meta["tests_with_change"], "demo:", meta["demo_with_change_rc"],
+    print(name, "confirmed=%s" % meta["confirmed"], meta["tests_with_change"], "demo:", meta["demo_with_change_rc"],
           meta["demo_without_change_rc"], "detected_by:", meta["detected_by"],
           {c: v["signature"] for c, v in meta["checks"].items() if v["rc"] == 1})
     return 0
